@@ -1,6 +1,7 @@
 package main
 
 import (
+	"strconv"
 	"fmt"
 	"go/ast"
 	"go/constant"
@@ -476,17 +477,16 @@ func (c *FnCtx) closedAxiom(key string) {
 	}
 	c.declared["closed:"+key] = true
 	e0 := c.entryArray(key, "Int")
-	al := sym("H0 $alloc")
-	c.declare(al, "(Array Int Bool)")
+	al := c.allocT0()
 	if strings.HasPrefix(key, "[]") || (strings.HasPrefix(key, "map[") && !strings.HasSuffix(key, "#len")) {
 		ks := "Int"
 		if strings.HasPrefix(key, "map[string]") {
 			ks = "String"
 		}
-		c.decls = append(c.decls, fmt.Sprintf("(assert (forall ((cx Int) (ci %s)) (! (or (<= (select (select %s cx) ci) 1) (select %s (select (select %s cx) ci))) :pattern ((select (select %s cx) ci)))))", ks, e0, al, e0, e0))
+		c.decls = append(c.decls, fmt.Sprintf("(assert (forall ((cx Int) (ci %s)) (! (or (<= (select (select %s cx) ci) 1) %s) :pattern ((select (select %s cx) ci)))))", ks, e0, inAl(al, fmt.Sprintf("(select (select %s cx) ci)", e0)), e0))
 		return
 	}
-	c.decls = append(c.decls, fmt.Sprintf("(assert (forall ((cx Int)) (! (or (<= (select %s cx) 1) (select %s (select %s cx))) :pattern ((select %s cx)))))", e0, al, e0, e0))
+	c.decls = append(c.decls, fmt.Sprintf("(assert (forall ((cx Int)) (! (or (<= (select %s cx) 1) %s) :pattern ((select %s cx)))))", e0, inAl(al, fmt.Sprintf("(select %s cx)", e0)), e0))
 }
 
 func refLeaf(l leaf) bool {
@@ -596,9 +596,7 @@ func (c *FnCtx) closedFacts(p *Path, ptr Val, t types.Type) {
 		} else {
 			t0 = fmt.Sprintf("(select %s %s)", e0, ptr.T)
 		}
-		al := sym("H0 $alloc")
-		c.declare(al, "(Array Int Bool)")
-		p.assume(fmt.Sprintf("(or (<= %s 1) (select %s %s))", t0, al, t0))
+		p.assume(fmt.Sprintf("(or (<= %s 1) %s)", t0, inAl(c.allocT0(), t0)))
 	}
 }
 
@@ -643,20 +641,53 @@ func (c *FnCtx) alloc(p *Path, hint string) string {
 	}
 	// fresh: not allocated before (see freshness instances at pointer loads)
 	al := c.heapGetAlloc(p)
-	p.assume(fmt.Sprintf("(not (select %s %s))", al, r))
-	p.heap.m["$alloc"] = fmt.Sprintf("(store %s %s true)", al, r)
+	p.assume(fmt.Sprintf("(= (atime %s) %s)", r, al))
+	p.heap.m["$alloc"] = plusOne(al)
 	p.allocs = append(p.allocs, r)
 	p.nonnil[r] = true
 	return r
 }
 
+// The allocation state is a clock: object x exists at time T iff atime(x) < T. A fresh object gets the
+// current time and the clock advances; callees, loop iterations and other threads only ever advance it, so
+// an object allocated now differs from every reference the program could have held before.
 func (c *FnCtx) heapGetAlloc(p *Path) string {
 	if a, ok := p.heap.m["$alloc"]; ok {
 		return a
 	}
-	n := sym("H0 $alloc")
-	c.declare(n, "(Array Int Bool)")
-	c.heapSort["$alloc"] = "Bool"
+	n := c.allocT0()
+	p.heap.m["$alloc"] = n
+	return n
+}
+
+func (c *FnCtx) allocT0() string {
+	n := sym("T0 $alloc")
+	if !c.declared[n] {
+		c.declare(n, "Int")
+		// nil and the static segment (address 1: package-level variables) are never handed out by an allocation
+		c.decls = append(c.decls, fmt.Sprintf("(assert (and (< (atime 0) %s) (< (atime 1) %s)))", n, n))
+	}
+	return n
+}
+
+func inAl(al, x string) string { return "(< (atime " + x + ") " + al + ")" }
+
+func plusOne(t string) string {
+	if strings.HasPrefix(t, "(+ ") && strings.HasSuffix(t, ")") {
+		if i := strings.LastIndex(t, " "); i > 3 {
+			if k, err := strconv.Atoi(t[i+1 : len(t)-1]); err == nil {
+				return fmt.Sprintf("(+ %s %d)", t[3:i], k+1)
+			}
+		}
+	}
+	return "(+ " + t + " 1)"
+}
+
+// advanceAlloc: somebody else (a callee, earlier loop iterations, another thread) may have allocated.
+func (c *FnCtx) advanceAlloc(p *Path) string {
+	al := c.heapGetAlloc(p)
+	n := c.fresh("T $alloc", "Int")
+	p.assume(fmt.Sprintf("(>= %s %s)", n, al))
 	p.heap.m["$alloc"] = n
 	return n
 }
@@ -667,10 +698,7 @@ func (c *FnCtx) assumeAllocated(p *Path, ref string) {
 	if len(p.allocs) == 0 {
 		// nothing allocated yet on this path: record against the entry alloc set
 	}
-	al := sym("H0 $alloc")
-	c.declare(al, "(Array Int Bool)")
-	c.heapSort["$alloc"] = "Bool"
-	p.assume(fmt.Sprintf("(or (= %s 0) (select %s %s))", ref, al, ref))
+	p.assume(fmt.Sprintf("(or (= %s 0) %s)", ref, inAl(c.allocT0(), ref)))
 }
 
 // ---------- the executor ----------
@@ -710,6 +738,9 @@ func (c *FnCtx) execFrom(p *Path, b *ssa.BasicBlock, idx int) []outcome {
 			continue // handled at block entry
 		case *ssa.DebugRef:
 			if id, ok := x.Expr.(*ast.Ident); ok && !x.IsAddr {
+				if v, isVar := x.Object().(*types.Var); isVar && v.IsField() {
+					continue // the selector of a field read, not a variable
+				}
 				if fr.named == nil {
 					fr.named = map[string]Val{}
 				}
